@@ -110,6 +110,94 @@ func (r *Runner) execMacro(a Action) {
 		if a.Arg == 1 && len(nonvoters) > 0 {
 			r.feat("cutleader-keeps-nonvoters")
 		}
+	case "outagecut":
+		// a voter A is unreachable for seconds and comes back; shortly afterwards
+		// the leader loses other voters, so that its majority now depends on A.
+		// The leader can reach a majority of voters at every instant: the lease
+		// check must not depose it (C13: "a leader whose majority keeps responding
+		// is never deposed by the lease check")
+		li, L := r.leader()
+		if L == nil || r.stillCut(L.ID()) {
+			return
+		}
+		var others []int
+		leaderVotes := false
+		for _, s := range r.cfgOf(L).Servers {
+			for i, id := range r.ids {
+				if string(s.ID) != id || s.Suffrage != raft.Voter {
+					continue
+				}
+				if i == li {
+					leaderVotes = true
+				} else if r.live(i) != nil {
+					others = append(others, i)
+				}
+			}
+		}
+		if !leaderVotes || len(others) < 2 || len(r.cfgOf(L).Servers) != len(others)+1 {
+			return // claimed for configurations of live voters only, three or more
+		}
+		ai := others[a.N%len(others)]
+		if r.P.NoPreVote[ai] {
+			return // without pre-vote the returning server deposes the leader by its term, not by the lease
+		}
+		termL := L.R.CurrentTerm()
+		r.exec(Action{Op: "isolate", Srv: ai})
+		outage := []int{2000, 5000, 8000, 12000}[a.Arg%4]
+		w.Advance(time.Duration(outage)*time.Millisecond, r.sample)
+		if r.live(li) != L || L.R.State() != raft.Leader || L.R.CurrentTerm() != termL || r.live(ai) == nil {
+			r.exec(Action{Op: "heal"})
+			return
+		}
+		r.exec(Action{Op: "heal"})
+		// (a heartbeat sent into the cut just before the heal is lost and waits out the
+		// transport's time-out; the next one follows after at most HeartbeatTimeout/2)
+		settle := time.Duration(r.P.RPCms)*time.Millisecond + L.Conf.HeartbeatTimeout + time.Duration(a.Dt%4)*L.Conf.HeartbeatTimeout/2
+		w.Advance(settle, r.sample)
+		if r.live(li) != L || L.R.State() != raft.Leader || L.R.CurrentTerm() != termL || L.R.VerifLeadershipTransferInProgress() {
+			return
+		}
+		for _, o := range others {
+			if in := r.live(o); in == nil || in.R.CurrentTerm() != termL {
+				return // somebody holds another term (a TimeoutNow reached it while it was away): leadership may change for that reason
+			}
+		}
+		quorum := (len(others)+1)/2 + 1
+		side := map[string]bool{L.ID(): true, r.ids[ai]: true}
+		for _, o := range others {
+			if len(side) >= quorum {
+				break
+			}
+			side[r.ids[o]] = true
+		}
+		w.Mu.Lock()
+		for _, x := range r.ids {
+			for _, y := range r.ids {
+				if side[x] != side[y] {
+					r.cut[[2]string{x, y}] = true
+				}
+			}
+		}
+		r.lastFaultMs = w.Now()
+		w.EvLocked(sim.Event{Kind: "outagecut", Srv: L.ID(), S: fmt.Sprint(keys(side))})
+		w.Mu.Unlock()
+		r.feat("leader-keeps-a-bare-majority-through-a-voter-back-from-a-long-outage")
+		watch := 6 * L.Conf.LeaderLeaseTimeout
+		lsd := L.LeaseStepDowns.Load()
+		for t := time.Duration(0); t < watch; t += time.Millisecond {
+			w.Advance(time.Millisecond, r.sample)
+			if r.live(li) != L {
+				break
+			}
+			if L.LeaseStepDowns.Load() > lsd {
+				w.Mu.Lock()
+				w.ViolateLocked("C13", "R2", "C13/R2/leader-with-a-responding-majority-deposed", "%s (term %d) could reach a majority of voters %v at every instant (voter %s back %v after a %d ms outage, then the others cut off) but its lease check deposed it %v after the cut ('failed to contact quorum of nodes, stepping down')",
+					L.ID(), termL, keys(side), r.ids[ai], settle, outage, t)
+				w.Mu.Unlock()
+				break
+			}
+		}
+		r.exec(Action{Op: "heal"})
 	case "suffragecut":
 		// a follower loses its vote under this leader (committed), then the
 		// leader is cut off together with the non-voters: the demoted server
